@@ -922,10 +922,27 @@ func runC14(c *Ctx) {
 		return
 	}
 	c.seeFn(funcName(rw))
+	// a step is a call in runWipe itself, or a call of a same-package helper that contains the step
+	// (inner[site] is then the step inside the helper, innerFn[site] the helper)
+	inner := map[*Call]*Call{}
+	innerFn := map[*Call]*ssa.Function{}
 	find := func(pred func(cl *Call) bool) *Call {
 		for _, cl := range Calls(rw) {
 			if pred(cl) && cl.Value() != nil {
 				return cl
+			}
+		}
+		for _, cl := range Calls(rw) {
+			callee := cl.Instr.Common().StaticCallee()
+			if callee == nil || len(callee.Blocks) == 0 || !samePkgFn(callee, rw) || cl.Value() == nil {
+				continue
+			}
+			for _, c2 := range Calls(callee) {
+				if pred(c2) && c2.Value() != nil {
+					inner[cl] = c2
+					innerFn[cl] = callee
+					return cl
+				}
 			}
 		}
 		return nil
@@ -962,58 +979,34 @@ func runC14(c *Ctx) {
 		key string
 		cl  *Call
 	}{{"RemoveAll", entities}, {"config-section", cfg}, {"Close", closeC}, {"local-storage", storage}} {
-		c.Check(errorPropagated(st.cl.Value(), nil), "R14.3", "runWipe:"+st.key+":error", w.InstrPos(st.cl.Instr), "error returned", "the error of step "+st.key+" is dropped")
+		okErr := errorPropagated(st.cl.Value(), nil)
+		if in := inner[st.cl]; in != nil && okErr {
+			okErr = errorPropagated(in.Value(), nil)
+		}
+		c.Check(okErr, "R14.3", "runWipe:"+st.key+":error", w.InstrPos(st.cl.Instr), "error returned", "the error of step "+st.key+" is dropped")
 	}
 	// order: entities → config → close → storage
 	c.Check(dominatedBySuccess(entities.Value(), cfg.Instr) && dominatedBySuccess(entities.Value(), closeC.Instr), "R14.3", "runWipe:entities-first", w.InstrPos(entities.Instr), "entities are removed first", "the configuration or the backend is torn down before (or without) the entities having been removed")
 	// the configuration removal may only be skipped when there is nothing to remove
-	okCfg := true
-	whyCfg := ""
-	var guard *ssa.If
-	for _, cc := range controlConds(cfg.Block(), nil) {
-		if e := errEdge(cc.If, defaultFail); e >= 0 && e != cc.Edge {
-			continue
-		}
-		isLenOfReadAll := false
-		if bo, isBo := cc.If.Cond.(*ssa.BinOp); isBo {
-			for _, side := range []ssa.Value{bo.X, bo.Y} {
-				if lc, isCall := side.(*ssa.Call); isCall {
-					if bi, isB := lc.Common().Value.(*ssa.Builtin); isB && bi.Name() == "len" {
-						if ra := hasOriginCall(lc.Common().Args[0], "repository.ConfigRead.ReadAll", 0); ra != nil {
-							if s, ok := constString(ra.Common().Args[0]); ok && s == "git-bug" {
-								isLenOfReadAll = true
-							}
-						}
-					}
+	okCfg, whyCfg := true, ""
+	{
+		cfgFn, cfgIn := rw, cfg
+		targets := []ssa.Instruction{closeC.Instr}
+		if in := inner[cfg]; in != nil {
+			// the step lives in a helper: inside it, every success return is a target; in runWipe the helper's success precedes Close
+			cfgFn, cfgIn = innerFn[cfg], in
+			targets = nil
+			for _, r := range Returns(cfgFn) {
+				if returnKind(r) != RetError {
+					targets = append(targets, r)
 				}
 			}
-		}
-		if isLenOfReadAll {
-			guard = cc.If
-			continue
-		}
-		okCfg, whyCfg = false, "the configuration removal is conditional on "+w.InstrPos(cc.If)
-	}
-	if okCfg {
-		from := cfg.Block()
-		if guard != nil {
-			// on the "has keys" edge the removal cannot be bypassed on the way to Close
-			for i, sb := range guard.Block().Succs {
-				if sb.Dominates(cfg.Block()) {
-					_ = i
-					from = sb
-				}
+			if !dominatedBySuccess(cfg.Value(), closeC.Instr) {
+				okCfg, whyCfg = false, "the backend is closed without the configuration section having been removed"
 			}
-			if !guard.Block().Dominates(closeC.Block()) {
-				okCfg, whyCfg = false, "the backend can be closed without the configuration test having run"
-			}
-		} else if !dominatedBySuccess(cfg.Value(), closeC.Instr) {
-			okCfg, whyCfg = false, "the backend is closed without the configuration section having been removed"
 		}
 		if okCfg {
-			if bad, p, _ := pathSearch(rw, nil, from, func(i ssa.Instruction) bool { return i == closeC.Instr }, func(i ssa.Instruction) bool { return i == cfg.Instr }, false); bad && guard != nil {
-				okCfg, whyCfg = false, "with configuration keys present, Close is reachable without removing them: "+blocksString(w, p)
-			}
+			okCfg, whyCfg = configRemovalUnskippable(w, cfgFn, cfgIn, targets)
 		}
 	}
 	c.Check(okCfg, "R14.3", "runWipe:config-section", w.InstrPos(cfg.Instr), "the git-bug section is removed whenever it has keys", whyCfg)
@@ -2022,4 +2015,65 @@ func checkRootDirs(c *Ctx) {
 	} else {
 		c.Undecided("R15.11", "anchor:repository.defaultKeyring", "repository", "not found")
 	}
+}
+
+
+// configRemovalUnskippable: in fn, the removal of the git-bug configuration section (cfg) may be skipped on the
+// way to a target only when the section has no keys (a len(ReadAll("git-bug")) test), or on an error exit.
+func configRemovalUnskippable(w *World, fn *ssa.Function, cfg *Call, targets []ssa.Instruction) (bool, string) {
+	var guard *ssa.If
+	for _, cc := range controlConds(cfg.Block(), nil) {
+		if e := errEdge(cc.If, defaultFail); e >= 0 && e != cc.Edge {
+			continue
+		}
+		isLenOfReadAll := false
+		if bo, isBo := cc.If.Cond.(*ssa.BinOp); isBo {
+			for _, side := range []ssa.Value{bo.X, bo.Y} {
+				if lc, isCall := side.(*ssa.Call); isCall {
+					if bi, isB := lc.Common().Value.(*ssa.Builtin); isB && bi.Name() == "len" {
+						if ra := hasOriginCall(lc.Common().Args[0], "repository.ConfigRead.ReadAll", 0); ra != nil {
+							if s, ok := constString(ra.Common().Args[0]); ok && s == "git-bug" {
+								isLenOfReadAll = true
+							}
+						}
+					}
+				}
+			}
+		}
+		if isLenOfReadAll {
+			guard = cc.If
+			continue
+		}
+		return false, "the configuration removal is conditional on " + w.InstrPos(cc.If)
+	}
+	if len(targets) == 0 {
+		return false, "no normal exit after the configuration removal"
+	}
+	from := cfg.Block()
+	if guard != nil {
+		// on the "has keys" edge the removal cannot be bypassed on the way to a target
+		for _, sb := range guard.Block().Succs {
+			if sb.Dominates(cfg.Block()) {
+				from = sb
+			}
+		}
+		for _, t := range targets {
+			if !guard.Block().Dominates(t.Block()) {
+				return false, "the backend can be closed without the configuration test having run"
+			}
+		}
+	} else {
+		for _, t := range targets {
+			if !dominatedBySuccess(cfg.Value(), t) {
+				return false, "the backend is closed without the configuration section having been removed"
+			}
+		}
+	}
+	for _, t := range targets {
+		t := t
+		if bad, p, _ := pathSearch(fn, nil, from, func(i ssa.Instruction) bool { return i == t }, func(i ssa.Instruction) bool { return i == cfg.Instr }, false); bad && guard != nil {
+			return false, "with configuration keys present, Close is reachable without removing them: " + blocksString(w, p)
+		}
+	}
+	return true, ""
 }
